@@ -5,121 +5,121 @@
 PROPS = {
     "C01": {
         "level": "exploration",
-        "quick": [("A", 40000), ("B", 5000)],
-        "thorough": [("A", 1600000), ("B", 200000), ("C", 200000)],
+        "quick": [("A", 200000), ("B", 20000)],
+        "thorough": [("A", 8000000), ("B", 1000000), ("C", 1000000)],
         "probes": ["tombstone_created", "rehash_in_place", "resize_up", "shrink", "shrink_to_singleton", "small_table", "one_group_table", "multi_group_table", "tombstone_reused", "insert_at_full_load"],
         "rule": "one evaluation = one simulated run: a seeded history of 10-400 HashMap operations over 3 map slots under a per-slot hash plan, every return value compared with an association-list model and the table dumped and swept after every step; non-trivial = the run contains at least one structural event (tombstone creation/reuse, in-place rehash, resize, shrink); distinct = distinct signatures (sequence of operation kinds + structural events), counted with a k-minimum-values sketch (exact below 4096)",
     },
     "C02": {
         "level": "exploration",
-        "quick": [("A", 30000)],
-        "thorough": [("A", 800000), ("C", 200000), ("D", 60000), ("E", 32), ("B", 100000)],
+        "quick": [("A", 150000)],
+        "thorough": [("A", 4000000), ("C", 1000000), ("D", 200000), ("E", 32), ("B", 500000)],
         "probes": ["leak_iter", "leak_drain", "leak_extract", "leak_entry", "leak_into_iter", "early_drop_drain", "early_drop_extract", "early_drop_into_iter", "small_table", "multi_group_table", "rehash_in_place", "serde_lying_hint"],
         "rule": "one evaluation = one simulated run of mixed operations in which iterators, drains, extract_ifs and entries are advanced k steps and then dropped or mem::forget-ten (cancellation faults F9/F10), with lying size hints (F13), colliding hash plans, exact-alignment-only allocator placement, element layouts 8..208 bytes and align up to 64; oracles: ledger (double drop, dead reference), red-zone canaries, quarantine poison, layout match, dump invariants I1-I4 and allocator balance after every call; non-trivial/distinct as for C01",
     },
     "C03": {
         "level": "exploration",
-        "quick": [("A", 30000)],
-        "thorough": [("A", 1000000), ("D", 30000), ("E", 16)],
+        "quick": [("A", 150000)],
+        "thorough": [("A", 5000000), ("D", 100000), ("E", 16)],
         "probes": ["early_drop_drain", "early_drop_extract", "early_drop_into_iter", "clone_from_same_buckets", "clone_from_diff_buckets", "clone_from_src_empty", "clone_from_dst_tombstones", "shrink", "shrink_to_singleton", "rehash_in_place"],
         "rule": "one evaluation = one simulated run ending in or containing removal, overwrite, clear, retain/extract_if, drain, into_iter/into_keys/into_values with sampled cut points, shrink, clone_from into an occupied target and drop; oracle: every element serial dropped exactly once or moved out once, every block returned once with its original layout, nothing live at the end; non-trivial/distinct as for C01",
     },
     "C04": {
         "level": "fault_enumeration",
-        "quick": [("A", 8000)],
-        "thorough": [("A", 80000), ("C", 20000), ("D", 8000), ("E", 16), ("B", 10000)],
+        "quick": [("A", 30000)],
+        "thorough": [("A", 400000), ("C", 100000), ("D", 20000), ("E", 16), ("B", 50000)],
         "probes": ["panic_in_resize", "panic_in_rehash_in_place", "panic_in_clone", "panic_in_drop", "panic_in_pred", "panic_in_eq", "panic_in_hash_lookup"],
         "rule": "one evaluation = one execution of a scenario; each seeded scenario is first executed fault-free to count the callback invocations of every class inside every operation, then re-executed with the k-th invocation of one class panicking inside one target operation, for every k (thorough) or k in {1, last, 2 random} (quick); non-trivial = a fault fired or a structural event occurred; distinct = distinct signatures (operation kinds + structural events + fired fault class), k-minimum-values sketch",
     },
     "C05": {
         "level": "exploration",
-        "quick": [("A", 20000)],
-        "thorough": [("A", 500000), ("C", 50000), ("D", 30000), ("E", 32), ("B", 50000)],
+        "quick": [("A", 100000)],
+        "thorough": [("A", 3000000), ("C", 300000), ("D", 100000), ("E", 32), ("B", 300000)],
         "probes": ["byz_hash_answer", "byz_eq_answer", "rehash_in_place", "resize_up", "tombstone_created"],
         "rule": "one evaluation = one simulated run under a byzantine hash plan (fresh value per call / periodic flips / epoch changes) and/or a byzantine equality (random, always true, always false, asymmetric) for the whole run; only the safety subset of the oracles is active (ledger, canaries, invariants I1-I4, len()==iter().count(), per-operation callback cap as divergence verdict, everything dropped exactly once at the end); non-trivial/distinct as for C01",
     },
     "C06": {
         "level": "exploration",
-        "quick": [("A", 30000), ("B", 5000)],
-        "thorough": [("A", 900000), ("B", 100000), ("D", 20000), ("E", 16)],
+        "quick": [("A", 150000), ("B", 20000)],
+        "thorough": [("A", 5000000), ("B", 500000), ("D", 60000), ("E", 16)],
         "probes": ["reinsert_same_slot", "iter_hash_multi", "dup_elements", "zero_sized", "entry_at_full_load", "tombstone_created", "rehash_in_place", "tombstone_reused"],
         "rule": "one evaluation = one simulated run of HashTable operations (find, find_mut, find_entry, entry, insert_unique, OccupiedEntry::remove then VacantEntry::insert, iter_hash(_mut), retain, extract_if, drain, clear, reserve, shrink, get_many_mut, clone) with caller-supplied hashes drawn from the hash plans (collisions in position bits, tag bits, both; duplicates of identical ids; zero-sized elements) against a multiset model; non-trivial/distinct as for C01",
     },
     "C07": {
         "level": "exploration",
-        "quick": [("A", 20000)],
-        "thorough": [("A", 500000)],
+        "quick": [("A", 100000)],
+        "thorough": [("A", 3000000)],
         "probes": ["set_smaller_drives_larger", "set_larger_first", "sub_assign_retain_path", "sub_assign_remove_path", "tombstone_created", "small_table", "multi_group_table"],
         "rule": "one evaluation = one simulated run over three HashSet slots built by independent histories under independently drawn hash plans (equal sets with different layouts, capacities, tombstones): union/intersection/difference/symmetric_difference iterators driven by next and fold with size_hint read at every step and clones taken mid-way, is_subset/is_superset/is_disjoint/== both ways, the four operators and the four assigning operators, insert/replace/take/get_or_insert/get_or_insert_with (incl. a lying constructor)/remove/entry, against BTreeSet algebra on ids and instance identity by serial; non-trivial/distinct as for C01",
     },
     "C08": {
         "level": "exploration",
-        "quick": [("A", 30000)],
-        "thorough": [("A", 1000000)],
+        "quick": [("A", 150000)],
+        "thorough": [("A", 5000000)],
         "probes": ["insert_at_full_load", "shrink", "shrink_to_singleton", "reserve_rehash", "tombstone_created"],
         "rule": "one evaluation = one simulated run mixing with_capacity/new/default, reserve, fill-to-capacity (zero allocator calls allowed), clear, drain, shrink_to/shrink_to_fit and tombstone-creating removals, with the allocator as measuring instrument (calls and bytes per operation); non-trivial/distinct as for C01",
     },
     "C09": {
         "level": "exploration",
-        "quick": [("A", 30000), ("B", 5000)],
-        "thorough": [("A", 900000), ("B", 100000), ("D", 20000), ("E", 16)],
+        "quick": [("A", 150000), ("B", 20000)],
+        "thorough": [("A", 5000000), ("B", 500000), ("D", 60000), ("E", 16)],
         "probes": ["iter_clone_mid", "iter_fold_switch", "iter_default", "iter_after_exhaustion", "small_table", "one_group_table", "multi_group_table", "tombstone_created"],
         "rule": "one evaluation = one simulated run in which, in every reached state, iter/iter_mut/keys/values/values_mut/into_iter/into_keys/into_values/drain are driven by a plan (a x next, optional clone, then next/fold/for_each/count/last/nth, then calls after exhaustion) with size_hint/len checked at every step; non-trivial/distinct as for C01",
     },
     "C10": {
         "level": "exploration",
-        "quick": [("A", 30000)],
-        "thorough": [("A", 1000000), ("D", 20000), ("B", 100000), ("E", 16)],
+        "quick": [("A", 150000)],
+        "thorough": [("A", 5000000), ("D", 60000), ("B", 500000), ("E", 16)],
         "probes": ["early_drop_drain", "early_drop_extract", "tombstone_created", "multi_group_table", "small_table"],
         "rule": "one evaluation = one simulated run with retain / extract_if predicates answering true on an arbitrary PRNG-drawn subset (and mutating values), extract_if and drain dropped after k steps for sampled k; oracle: predicate called exactly once per element, kept/yielded sets exact, unvisited elements stay, drain leaves an empty usable collection holding the same block; non-trivial/distinct as for C01",
     },
     "C11": {
         "level": "exploration",
-        "quick": [("A", 20000)],
-        "thorough": [("A", 500000)],
+        "quick": [("A", 100000)],
+        "thorough": [("A", 3000000)],
         "probes": ["clone_from_same_buckets", "clone_from_diff_buckets", "clone_from_src_empty", "clone_from_dst_tombstones"],
         "rule": "one evaluation = one simulated run over three slots with independently seeded hash plans: clone, clone_from along all structural paths, == both ways, then further mutation of either side; non-trivial/distinct as for C01",
     },
     "C12": {
         "level": "fault_enumeration",
-        "quick": [("A", 30000)],
-        "thorough": [("A", 1000000), ("D", 20000)],
+        "quick": [("A", 150000)],
+        "thorough": [("A", 5000000), ("D", 60000)],
         "probes": ["refused_alloc", "capacity_overflow", "try_reserve_ok"],
         "rule": "one evaluation = one simulated run in which try_reserve is called in every reached state with amounts from {small, around 7/8*2^k, isize::MAX, usize::MAX, usize::MAX/size_of<T> +-1} under allocator refusal modes (refuse the 1st request / everything / above a byte limit); an operation makes at most one allocator request, so refusing request j=1 enumerates the fault positions; non-trivial/distinct as for C01",
     },
     "C13": {
         "level": "exploration",
-        "quick": [("A", 1500), ("B", 200)],
-        "thorough": [("A", 9000), ("B", 1000)],
+        "quick": [("A", 3000), ("B", 400)],
+        "thorough": [("A", 30000), ("B", 3000)],
         "probes": ["rehash_in_place", "tombstone_created", "tombstone_reused", "churn_long", "lookup_absent_saturated"],
         "rule": "one evaluation = one long churn history (2 000-100 000 operations) of insert/remove/lookup with live size <= n (n in 1..200), removal order random/FIFO/LIFO/middle, no explicit reservation, under Seq / clustered / all-colliding / mixed plans; oracle at every step: allocation_size() <= 8 x allocation of a fresh with_capacity(peak live size), invariant I4, per-operation callback cap and CPU watchdog (termination); non-trivial/distinct as for C01",
     },
     "C14": {
         "level": "exploration",
-        "quick": [("A", 30000)],
-        "thorough": [("A", 1000000), ("B", 100000), ("E", 16)],
+        "quick": [("A", 150000)],
+        "thorough": [("A", 5000000), ("B", 500000), ("E", 16)],
         "probes": ["entry_at_full_load", "entry_on_singleton", "entry_tombstone_saturated", "vacant_dropped", "rehash_in_place"],
         "rule": "one evaluation = one simulated run in which method chains of length <= 3 on entry, entry_ref, raw_entry_mut (from_key, from_key_hashed_nocheck, from_hash), raw_entry and rustc_entry are applied to present and absent keys in states steered to capacity()==len(), tombstone saturation and the unallocated singleton; the observation log of each chain must equal that of the same chain on the model; non-trivial/distinct as for C01",
     },
     "C15": {
         "level": "exploration",
-        "quick": [("A", 20000)],
-        "thorough": [("A", 500000)],
+        "quick": [("A", 100000)],
+        "thorough": [("A", 3000000)],
         "probes": ["get_many_dup", "get_many_absent", "get_many_all_present"],
         "rule": "one evaluation = one simulated run issuing get_many_mut / get_many_key_value_mut with N = 0..4 requests including duplicates and absent keys, under plans colliding in position and tag bits, and (one third of the runs) an equality that matches several entries; oracle: request order, right entry per request (serial), pairwise distinct addresses, panic iff two requests resolve to one entry, sentinel writes land in the requested entries; non-trivial/distinct as for C01",
     },
     "C18": {
         "level": "exploration",
-        "quick": [("A", 6000)],
-        "thorough": [("A", 300000)],
+        "quick": [("A", 15000)],
+        "thorough": [("A", 1000000)],
         "differential": "B",
         "probes": ["match_tag_false_positive", "tombstone_created", "rehash_in_place", "small_table", "one_group_table", "multi_group_table"],
         "rule": "one evaluation = one execution of a scenario under one scanner back-end; every scenario is generated and executed under the SSE2 16-byte scanner, then the identical recorded scenario is replayed under the portable 8-byte scanner and the transcripts of content-semantic observables (lengths and sorted contents after every step; return values are compared with the same reference model in both builds) must be identical; in both builds, after every step, every scanner primitive is compared with its byte-by-byte definition on aligned and unaligned windows of the reached control bytes for all tags present, their low-bit neighbours and 0x00/0x01/0x7e/0x7f; non-trivial/distinct as for C01",
     },
     "C20": {
         "level": "exploration",
-        "quick": [("A", 8000)],
-        "thorough": [("A", 300000)],
+        "quick": [("A", 40000)],
+        "thorough": [("A", 2000000)],
         "probes": ["serde_round_trip", "serde_err_mid", "serde_lying_hint", "serde_dup_key"],
         "rule": "one evaluation = one simulated run in which maps and sets reached by a history are serialised with serde_json and read back (cleanly, with short reads, and through a reader that errors or ends at byte k), and in which maps/sets are deserialised (Deserialize and, for sets, deserialize_in_place) from a simulator-owned stream with repeated keys, a claimed length from None/0 to usize::MAX and an error at element k; oracle: round trip equals the original (contents and == both ways), last value per repeated key, an error is reported and leaves no element or block live, the largest allocator request of a deserialisation is below 2 MiB whatever the claimed length; non-trivial/distinct as for C01",
     },
@@ -128,8 +128,8 @@ PROPS = {
         # rayon-core's crossbeam-epoch is rejected by Stacked Borrows as soon as the (one-thread) pool is built;
         # that is outside hashbrown. Leaks are the ledger's job: the global pool outlives main.
         "miriflags": "-Zmiri-tree-borrows -Zmiri-ignore-leaks",
-        "quick": [("A", 30000)],
-        "thorough": [("A", 600000), ("C", 60000), ("D", 30000), ("E", 32)],
+        "quick": [("A", 150000)],
+        "thorough": [("A", 3000000), ("C", 300000), ("D", 100000), ("E", 32)],
         "probes": ["par_split", "par_steal", "par_depth3", "par_early_stop", "par_consumer_panic", "multi_group_table", "small_table"],
         "rule": "one evaluation = one simulated run in which the rayon adaptors of a map, set or table reached by a history (tables of 4..4096 buckets, any occupancy) are driven through the simulator-owned bridge_unindexed under a recorded decision list: split-or-fold at every node (free form, or a rayon-like split budget for pool sizes 1..64 with budget reset on a 'steal'), the order in which pending subtrees run, consumers that take everything, stop after k items (take_any, find_any, any, all) or panic at item k; oracle: delivered multiset = stored multiset (or a sub-multiset without duplicates of exactly the requested size), par_iter_mut visits each element once, par_drain leaves an empty usable collection holding the same block, undelivered elements dropped exactly once also under a consumer panic, parallel set operations / predicates / par_eq / par_extend / from_par_iter equal their sequential counterparts; distinct = distinct signatures incl. the split-tree shape digest",
     },
